@@ -152,6 +152,25 @@ def _split_parallel(fn: ast.AST, _again: bool = True) -> int:
                 k += 1
                 i += 1
                 continue
+            if isinstance(s, ast.Assign) and len(s.targets) == 1 and isinstance(s.targets[0], ast.Name) and isinstance(s.value, ast.IfExp) \
+                    and isinstance(s.value.body, ast.Dict) and isinstance(s.value.orelse, ast.Dict) and not s.value.orelse.keys \
+                    and all(isinstance(k_, ast.Constant) for k_ in s.value.body.keys) and _is_pure(s.value.test):
+                # d = {"k": v, ..} if c else {}   ->   d = {}; if c: d["k"] = v; ..     (the spelling with stores)
+                nm_ = s.targets[0].id
+                new = [ast.Assign(targets=[ast.Name(nm_, ast.Store())], value=ast.Dict(keys=[], values=[]))]
+                new.append(ast.If(test=s.value.test, body=[
+                    ast.Assign(targets=[ast.Subscript(value=ast.Name(nm_, ast.Load()), slice=k_, ctx=ast.Store())], value=v_)
+                    for k_, v_ in zip(s.value.body.keys, s.value.body.values)] or [ast.Pass()], orelse=[]))
+                for n_ in new:
+                    ast.copy_location(n_, s)
+                    for x_ in ast.walk(n_):
+                        if isinstance(x_, ast.stmt):
+                            ast.copy_location(x_, s)
+                    ast.fix_missing_locations(n_)
+                body[i:i + 1] = new
+                i += len(new)
+                k += 1
+                continue
             if isinstance(s, ast.Assign) and len(s.targets) > 1 and isinstance(s.value, ast.Constant) \
                     and all(isinstance(t, (ast.Name, ast.Attribute)) and _is_pure(t) for t in s.targets):
                 # a = b = <constant>   ->   a = <constant>; b = <constant>
@@ -313,6 +332,17 @@ def _literal_tables(fn: ast.AST) -> int:
                 if b_ is not st:
                     body[i_] = R().visit(b_)
             body.remove(st)
+            k += 1
+    for n in ast.walk(fn):
+        if isinstance(n, ast.Call) and any(isinstance(a_, ast.Starred) and isinstance(a_.value, (ast.Tuple, ast.List)) for a_ in n.args):
+            # f(a, *(b, c)) -> f(a, b, c)
+            flat_: List[ast.expr] = []
+            for a_ in n.args:
+                if isinstance(a_, ast.Starred) and isinstance(a_.value, (ast.Tuple, ast.List)) and not any(isinstance(e_, ast.Starred) for e_ in a_.value.elts):
+                    flat_ += list(a_.value.elts)
+                else:
+                    flat_.append(a_)
+            n.args = flat_
             k += 1
     for n in ast.walk(fn):
         if isinstance(n, ast.For) and isinstance(n.iter, ast.Call) and isinstance(n.iter.func, ast.Name) and n.iter.func.id == "zip" \
@@ -587,6 +617,7 @@ def _splat(fn: ast.AST) -> int:
                     while nm_ in taken_:
                         nm_ += "_"
                     taken_.add(nm_)
+                    _HOISTED.setdefault(id(fn), set()).add(nm_)
                     a_ = ast.copy_location(ast.Assign(targets=[ast.Name(id=nm_, ctx=ast.Store())], value=val), s)
                     ast.fix_missing_locations(a_)
                     pre_.append(a_)
@@ -1664,6 +1695,9 @@ def _partials(tree: ast.Module) -> int:
                         bound = {kw_.arg for kw_ in c.keywords}
                         rest = [a for a in fpar if a not in bound]
                         nm = f"{F.name}__p{k}"
+                        if isinstance(st, ast.Assign) and len(st.targets) == 1 and isinstance(st.targets[0], ast.Name) and st.value is c \
+                                and len(_stores(fn).get(st.targets[0].id, [])) == 1:
+                            nm = st.targets[0].id      # g = partial(F, ..): the closure takes the name g and the assignment goes
                         call = ast.Call(func=ast.Name(F.name, ast.Load()), args=[ast.Name(a, ast.Load()) for a in rest],
                                         keywords=[ast.keyword(arg=kw_.arg, value=ast.Name(kw_.value.id, ast.Load())) for kw_ in c.keywords])
                         d = ast.FunctionDef(name=nm, args=ast.arguments(posonlyargs=[], args=[ast.arg(arg=a) for a in rest], vararg=None,
@@ -1688,7 +1722,75 @@ def _partials(tree: ast.Module) -> int:
                         body.insert(i, d)
                         i += 1
                     ast.fix_missing_locations(st)
+                    if isinstance(st, ast.Assign) and isinstance(st.value, ast.Name) and isinstance(st.targets[0], ast.Name) and st.value.id == st.targets[0].id:
+                        body.remove(st)
+                        i -= 1
                 i += 1
+    return k
+
+
+def _partials_general(tree: ast.Module) -> int:
+    """T23b: `g = partial(F, a.., k=v.., **d)` (g bound once; F, a, v names that are not rebound afterwards or constants; d a
+    dict that is not written after this statement) is the closure
+    `def g(*args, **kwargs): return F(a.., *args, k=v.., **d, **kwargs)` -- partial binds the values it is given, the
+    closure reads the same, unchanged, names when it is called"""
+    k = 0
+    hosts = [n for n in tree.body if isinstance(n, ast.FunctionDef)] + \
+        [m_ for c_ in tree.body if isinstance(c_, ast.ClassDef) for m_ in c_.body if isinstance(m_, ast.FunctionDef)]
+    for fn in hosts:
+        stores = _stores(fn)
+        for body in _bodies(fn):
+            for i, st in enumerate(list(body)):
+                if not (isinstance(st, ast.Assign) and len(st.targets) == 1 and isinstance(st.targets[0], ast.Name) and isinstance(st.value, ast.Call)
+                        and dotted_name(st.value.func) in ("partial", "functools.partial") and st.value.args and isinstance(st.value.args[0], ast.Name)):
+                    continue
+                g, c = st.targets[0].id, st.value
+                if len(stores.get(g, [])) != 1:
+                    continue
+                line = st.lineno
+
+                def stable(e) -> bool:
+                    if isinstance(e, ast.Constant):
+                        return True
+                    if not isinstance(e, ast.Name):
+                        return False
+                    later = [x for x in stores.get(e.id, []) if getattr(x, "lineno", 0) > line]
+                    defs_later = [x for x in ast.walk(fn) if isinstance(x, ast.FunctionDef) and x.name == e.id and x.lineno > line]
+                    return not later and not defs_later
+                pos = c.args[1:]
+                if any(isinstance(a, ast.Starred) for a in pos) or not all(stable(a) for a in [c.args[0]] + list(pos)):
+                    continue
+                kws = [k_ for k_ in c.keywords if k_.arg is not None]
+                dd = [k_.value for k_ in c.keywords if k_.arg is None]
+                if not all(stable(k_.value) for k_ in kws) or not all(isinstance(d_, ast.Name) and stable(d_) for d_ in dd):
+                    continue
+                okd = True
+                for d_ in dd:
+                    for x in ast.walk(fn):
+                        if getattr(x, "lineno", 0) <= line:
+                            continue
+                        if isinstance(x, ast.Subscript) and isinstance(x.ctx, (ast.Store, ast.Del)) and isinstance(x.value, ast.Name) and x.value.id == d_.id:
+                            okd = False
+                        if isinstance(x, ast.Call) and isinstance(x.func, ast.Attribute) and isinstance(x.func.value, ast.Name) and x.func.value.id == d_.id \
+                                and x.func.attr in ("update", "pop", "clear", "setdefault", "popitem", "__setitem__"):
+                            okd = False
+                if not okd:
+                    continue
+                taken = {n.id for n in ast.walk(fn) if isinstance(n, ast.Name)}
+                va, ka = "args__p", "kwargs__p"
+                if va in taken or ka in taken:
+                    continue
+                call = ast.Call(func=ast.Name(c.args[0].id, ast.Load()),
+                                args=[copy.deepcopy(a) for a in pos] + [ast.Starred(value=ast.Name(va, ast.Load()), ctx=ast.Load())],
+                                keywords=[ast.keyword(arg=k_.arg, value=copy.deepcopy(k_.value)) for k_ in kws] +
+                                [ast.keyword(arg=None, value=copy.deepcopy(d_)) for d_ in dd] + [ast.keyword(arg=None, value=ast.Name(ka, ast.Load()))])
+                d = ast.FunctionDef(name=g, args=ast.arguments(posonlyargs=[], args=[], vararg=ast.arg(arg=va), kwonlyargs=[], kw_defaults=[],
+                                                               kwarg=ast.arg(arg=ka), defaults=[]),
+                                    body=[ast.Return(value=call)], decorator_list=[], returns=None, type_params=[])
+                ast.copy_location(d, st)
+                ast.fix_missing_locations(d)
+                body[body.index(st)] = d
+                k += 1
     return k
 
 
@@ -1981,6 +2083,117 @@ def _walrus(fn: ast.AST) -> int:
     return k
 
 
+def _suppress_and_defaults(fn: ast.AST) -> int:
+    """T30: `with [contextlib.]suppress(E..): B` -> `try: B except (E..): pass`; and `v = <constant>` directly followed by
+    `try: ..; v = e  except E: pass` (v assigned only by the last statement of the try body, not read before) ->
+    `try: ..; v = e  except E: v = <constant>` -- the default-first spelling of an except-branch default"""
+    k = 0
+    for body in _bodies(fn):
+        i = 0
+        while i < len(body):
+            s = body[i]
+            if isinstance(s, ast.With) and len(s.items) == 1 and s.items[0].optional_vars is None and isinstance(s.items[0].context_expr, ast.Call) \
+                    and dotted_name(s.items[0].context_expr.func) in ("suppress", "contextlib.suppress") and s.items[0].context_expr.args \
+                    and not s.items[0].context_expr.keywords and all(_is_pure(a) for a in s.items[0].context_expr.args):
+                excs = s.items[0].context_expr.args
+                typ = excs[0] if len(excs) == 1 else ast.Tuple(elts=list(excs), ctx=ast.Load())
+                t = ast.Try(body=s.body, handlers=[ast.ExceptHandler(type=typ, name=None, body=[ast.Pass()])], orelse=[], finalbody=[])
+                ast.copy_location(t, s)
+                ast.fix_missing_locations(t)
+                body[i] = t
+                s = t
+                k += 1
+            if isinstance(s, ast.Try) and i > 0 and len(s.handlers) == 1 and not s.orelse and not s.finalbody \
+                    and len(s.handlers[0].body) == 1 and isinstance(s.handlers[0].body[0], ast.Pass) and s.body:
+                prev, last = body[i - 1], s.body[-1]
+                if isinstance(prev, ast.Assign) and len(prev.targets) == 1 and isinstance(prev.targets[0], ast.Name) and _is_pure(prev.value) \
+                        and not any(isinstance(x, ast.Name) for x in ast.walk(prev.value) if not (isinstance(x, ast.Name) and x.id in ("np", "math", "float"))) \
+                        and isinstance(last, ast.Assign) and len(last.targets) == 1 and isinstance(last.targets[0], ast.Name) \
+                        and last.targets[0].id == prev.targets[0].id:
+                    v = prev.targets[0].id
+                    if not any(isinstance(x, ast.Name) and x.id == v for b_ in s.body[:-1] for x in ast.walk(b_)) \
+                            and not any(isinstance(x, ast.Name) and x.id == v for x in ast.walk(last.value)):
+                        s.handlers[0].body = [ast.copy_location(ast.Assign(targets=[ast.Name(v, ast.Store())], value=prev.value), s.handlers[0])]
+                        ast.fix_missing_locations(s)
+                        del body[i - 1]
+                        k += 1
+                        continue
+            i += 1
+    return k
+
+
+_HOISTED: Dict[int, Set[str]] = {}
+
+
+def _forward_hoisted(fn: ast.AST) -> int:
+    """T1b: a temporary that T1 itself introduced for a plain read (`d__nfev = sf.nfev`, `d__x = x`) is forwarded to its
+    uses again when nothing between the read and the uses can change what it reads: no rebinding of a name it mentions, no
+    store through its base, and no call that has its base as receiver or among its arguments"""
+    names = _HOISTED.get(id(fn), set())
+    if not names:
+        _HOISTED.pop(id(fn), None)
+        return 0
+    k = 0
+    for body in _bodies(fn):
+        for st in list(body):
+            if not (isinstance(st, ast.Assign) and len(st.targets) == 1 and isinstance(st.targets[0], ast.Name) and st.targets[0].id in names):
+                continue
+            t, E = st.targets[0].id, st.value
+            if not (isinstance(E, (ast.Name, ast.Attribute)) and _is_pure(E)):
+                continue
+            base = E
+            while isinstance(base, ast.Attribute):
+                base = base.value
+            if not isinstance(base, ast.Name):
+                continue
+            p_ = body.index(st)
+            uses = [n for n in ast.walk(fn) if isinstance(n, ast.Name) and n.id == t and isinstance(n.ctx, ast.Load)]
+            rest = body[p_ + 1:]
+            inside = {id(n) for b_ in rest for n in ast.walk(b_)}
+            if not uses or not all(id(u) in inside for u in uses):
+                continue
+            last = max(i for i, b_ in enumerate(rest) if any(id(u) in {id(n) for n in ast.walk(b_)} for u in uses))
+            safe = True
+            for b_ in rest[:last + 1]:
+                for n in ast.walk(b_):
+                    if isinstance(n, ast.Name) and isinstance(n.ctx, (ast.Store, ast.Del)) and n.id in (_free(E) | {t}):
+                        safe = False
+                    if isinstance(E, ast.Attribute):
+                        if isinstance(n, ast.Attribute) and isinstance(n.ctx, (ast.Store, ast.Del)):
+                            r_ = n
+                            while isinstance(r_, ast.Attribute):
+                                r_ = r_.value
+                            if isinstance(r_, ast.Name) and r_.id == base.id:
+                                safe = False
+                        if isinstance(n, ast.Call):
+                            r_ = n.func
+                            while isinstance(r_, ast.Attribute):
+                                r_ = r_.value
+                            if isinstance(r_, ast.Name) and r_.id == base.id:
+                                safe = False
+                            if any(isinstance(x, ast.Name) and x.id == base.id for a_ in list(n.args) + [k_.value for k_ in n.keywords] for x in ast.walk(a_)
+                                   if not (isinstance(a_, ast.Attribute) and _is_pure(a_))):
+                                safe = False
+                        if isinstance(n, (ast.FunctionDef, ast.Lambda)):
+                            safe = False
+            if not safe:
+                continue
+
+            class R(ast.NodeTransformer):
+                def visit_Name(self, n):
+                    if n.id == t and isinstance(n.ctx, ast.Load):
+                        return ast.copy_location(copy.deepcopy(E), n)
+                    return n
+            for i_, b_ in enumerate(body):
+                if b_ is not st:
+                    body[i_] = R().visit(b_)
+            body.remove(st)
+            names.discard(t)
+            k += 1
+    _HOISTED.pop(id(fn), None)
+    return k
+
+
 def _delegating_generators(tree: ast.Module) -> int:
     """T21: a module-level generator whose whole body is `yield from E` hands out exactly the items of E; when every
     call of it is the iterable of a `for` statement or of a comprehension (consumed at once, on the spot), the call
@@ -2017,7 +2230,8 @@ def normalise(tree: ast.Module, modname: str = "") -> Dict[str, int]:
     _fns0 = [n for n in ast.walk(tree) if isinstance(n, (ast.FunctionDef, ast.AsyncFunctionDef))]
     stats["T26 match statement"] = sum(_match_to_if(fn) for fn in _fns0)
     stats["T27 assignment expression"] = sum(_walrus(fn) for fn in _fns0)
-    stats["T23 partial application"] = _partials(tree)
+    stats["T30 suppress / default first"] = sum(_suppress_and_defaults(fn) for fn in _fns0)
+    stats["T23 partial application"] = _partials(tree) + _partials_general(tree)
     fns = [n for n in ast.walk(tree) if isinstance(n, (ast.FunctionDef, ast.AsyncFunctionDef))]
     for fn in fns:
         stats["T3 unroll"] += _literal_tables(fn)
@@ -2051,5 +2265,6 @@ def normalise(tree: ast.Module, modname: str = "") -> Dict[str, int]:
     for fn in fns:
         stats["T2 parallel"] += _split_parallel(fn)
         stats["T1 splat"] += _splat(fn)
+        stats["T1 splat"] += _forward_hoisted(fn)
         stats["T4 tests"] += _inline_tests(fn)
     return stats
